@@ -210,3 +210,21 @@ def run_e2e(h, fn, sc, ec, P, N, sampler, method, support):
         h.check("support contains thresholds beyond the score range on both sides", h.And(h.Or([t < lo_s for t in thr]), h.Or([t > hi_s for t in thr])))
         view = h.cells(curve.fpr)
         h.check("default x-axis (fpr) non-decreasing along the curve", h.And([h.le(view[i], view[i + 1], 0) for i in range(n - 1)]))
+
+
+def regressions(h):
+    """auxiliary concrete sweep (float64, real NumPy): the rule-of-three trigger fires exactly at observed rates 0 and 1 for
+    every class size n <= 200 and every count k <= n — the reals cannot see a trigger that differs only by rounding."""
+    np = h.np
+    f = h.sa.roc_curve._apply_rule_of_three
+    bad = []
+    for n in range(1, 201):
+        k = np.arange(0, n + 1)
+        p = k / n
+        ci = np.stack([p, p], axis=-1)
+        out = f(p=p, ci=ci, alpha=0.05, n=n)
+        changed = np.any(out != ci, axis=-1)
+        want = (k == 0) | (k == n)
+        if not np.array_equal(changed, want):
+            bad.append((n, k[changed != want].tolist()[:3]))
+    h.check("[float sweep] rule-of-three rows are exactly the rates 0 and 1 (n <= 200)", not bad)
